@@ -78,6 +78,7 @@ def h_unrolled(n_layers: int):
         r = c.real("r", 1 / 16, 16)
         rule = _rule(m, r)
         N = 2 * n_layers
+        _history(rule, n_layers)
         sq: List[Any] = [SReal(z3.RealVal(1))]  # squared contributions: embedding first
         for k in range(N):
             tau = rule(k, N)
@@ -98,10 +99,19 @@ def h_unrolled(n_layers: int):
     return h
 
 
+def _history(rule: Any, n_layers: int) -> None:
+    """The same rule object is first queried for a deeper and for a shallower stack: its answers must depend on
+    (index, layers) only (one rule object is shared by every TransformerStack built with the default)."""
+    for other in (n_layers + 2, max(1, n_layers - 1)):
+        for k in range(2 * other):
+            rule(k, 2 * other)
+
+
 # ------------------------------------------------------------------------------------------ replay
 def _concrete_claims(m: float, r: float, n_layers: int) -> Tuple[bool, str]:
     rule = _rule(m, r)
     N = 2 * n_layers
+    _history(rule, n_layers)
     sq = [1.0]
     for k in range(N):
         t2 = rule(k, N) ** 2
@@ -166,6 +176,19 @@ def wiring(max_layers: int) -> List[Dict[str, Any]]:
             want = [(1000.0 * 2 * L + 2 * i, 1000.0 * 2 * L + 2 * i + 1) for i in range(L)]
             if got != want or len(st) != L:
                 bad.append({"layers": L, "got": got, "want": want})
+    finally:
+        M.TransformerLayer = orig  # type: ignore[misc]
+    # the default rule object is shared by all stacks: build deeper, then shallower stacks with it
+    try:
+        M.TransformerLayer = Rec  # type: ignore[misc]
+        for L in (4, 2, 6, 1, 3):
+            st = M.TransformerStack(layers=L, hidden_size=8, heads=2, is_causal=True)
+            for i, l in enumerate(st):
+                for got_tau, k in ((l.kw["mhsa_tau"], 2 * i), (l.kw["mlp_tau"], 2 * i + 1)):
+                    want_tau = 1.0 / math.sqrt(L + (k + 1) // 2 + k // 2)  # closed form for mult = ratio = 1
+                    if abs(got_tau - want_tau) > 1e-12:
+                        bad.append({"layers": L, "default_rule_after_other_depths": True, "branch": k,
+                                    "got": got_tau, "want": want_tau})
     finally:
         M.TransformerLayer = orig  # type: ignore[misc]
     if bad:
